@@ -1166,13 +1166,23 @@ def gen_scanner(src):
     from rs2lean_scanner import gen_scanner as g
     return g(src)
 
+def gen_regex(src):
+    # src/stdlib/regex.rs: the four wrappers over the model's abstract engine (tools/rs2lean_stdlib.py gen_regex)
+    from rs2lean_stdlib import gen_regex as g
+    return g(src)
+
+def gen_time(src):
+    # the core of src/stdlib/time.rs: number <-> NaiveDateTime conversions and the component builtins (tools/rs2lean_stdlib.py gen_time)
+    from rs2lean_stdlib import gen_time as g
+    return g(src)
+
 def gen_serde(src):
     # the serde derives of src/ast.rs / src/operator.rs and `impl Serialize for Value`: tools/rs2lean_serde.py
     from rs2lean_serde import gen_serde as g
     return g(src)
 
 TARGETS = (('SrcInterp', gen_interp), ('SrcValidate', gen_validate), ('SrcOptimizer', gen_optimizer), ('SrcEnv', gen_env), ('SrcOrder', gen_order),
-           ('SrcParser', gen_parser), ('SrcStdlib', gen_stdlib), ('SrcScanner', gen_scanner), ('SrcSerde', gen_serde))
+           ('SrcParser', gen_parser), ('SrcStdlib', gen_stdlib), ('SrcScanner', gen_scanner), ('SrcSerde', gen_serde), ('SrcRegex', gen_regex), ('SrcTime', gen_time))
 
 def main():
     a = sys.argv[1:]
